@@ -52,7 +52,7 @@ func (p *proverModel) answer(ctx context.Context, method string, in *proverv1.Ge
 	case replyNotFound:
 		return nil, status.Error(codes.Unavailable, "Proposer service has not built any proof yet")
 	}
-	p.s.onProverRequest(in)
+	p.s.onProverRequest(in, optimistic)
 	end := in.RequestedEndBlock
 	if mode == replyStale && end > in.LastProvenBlock+1 {
 		// the prover proved a shorter range than asked
@@ -119,7 +119,7 @@ func (p *proverModel) GenerateOptimisticAggchainProof(ctx context.Context, in *p
 
 // onProverRequest judges what the node asks the prover to prove (C19 global indexes, C09 L1 info
 // proofs, C17 the cut of the requested range).
-func (s *senderWorld) onProverRequest(in *proverv1.GenerateAggchainProofRequest) {
+func (s *senderWorld) onProverRequest(in *proverv1.GenerateAggchainProofRequest, optimistic bool) {
 	s.rec.Stats.Inc("prover_requests")
 	from, to := in.LastProvenBlock+1, in.RequestedEndBlock
 	if to < from {
@@ -200,7 +200,12 @@ func (s *senderWorld) onProverRequest(in *proverv1.GenerateAggchainProofRequest)
 		return
 	}
 	size := func(end uint64) uint {
-		p := &aggsendertypes.CertificateBuildParams{FromBlock: from, ToBlock: end, CertificateType: aggsendertypes.CertificateTypeFEP}
+		// the size limit is defined on the node's own estimate, which depends on the certificate type
+		ct := aggsendertypes.CertificateTypeFEP
+		if optimistic {
+			ct = aggsendertypes.CertificateTypeOptimistic
+		}
+		p := &aggsendertypes.CertificateBuildParams{FromBlock: from, ToBlock: end, CertificateType: ct}
 		b, c := s.eventsIn(from, end)
 		for _, x := range b {
 			p.Bridges = append(p.Bridges, *x)
